@@ -120,7 +120,12 @@ func (p *Prog) ipathsD(f *ssa.Function, depth int, stack map[*ssa.Function]bool)
 		contradictory := false
 		for _, fc := range cp.Facts {
 			cond := resolveOnPathAt(cp, fc.Cond, fc.At, p.havoc)
-			if s, ok := relOf(fact{Cond: cond, Val: fc.Val}); ok {
+			// phis nested in the condition are the values they have at this position of the path
+			at := fc.At
+			relKeyFn = func(v ssa.Value) string { return skOnPath(cp, v, at, p.havoc) }
+			s, ok := relOf(fact{Cond: cond, Val: fc.Val})
+			relKeyFn = nil
+			if ok {
 				factRels = append(factRels, s)
 				if p.volatileValue(cond) {
 					factVol[s] = true
@@ -139,7 +144,8 @@ func (p *Prog) ipathsD(f *ssa.Function, depth int, stack map[*ssa.Function]bool)
 		if contradictory {
 			continue
 		}
-		for _, b := range cp.Blocks {
+		for bi, b := range cp.Blocks {
+			kf := func(v ssa.Value) string { return skOnPath(cp, v, bi, p.havoc) }
 			if !alive {
 				break
 			}
@@ -149,7 +155,7 @@ func (p *Prog) ipathsD(f *ssa.Function, depth int, stack map[*ssa.Function]bool)
 				}
 				switch x := in.(type) {
 				case *ssa.Defer:
-					ev := mkEvent(&x.Call, nil, in, f)
+					ev := mkEventK(&x.Call, nil, in, f, kf)
 					ev.Deferred = true
 					for i := range cur {
 						if cur[i].Exit == "" {
@@ -163,10 +169,10 @@ func (p *Prog) ipathsD(f *ssa.Function, depth int, stack map[*ssa.Function]bool)
 						if okc && len(sub) > 0 && len(sub)*len(cur) <= ipathLimit {
 							psub := map[string]string{}
 							for i, pa := range callee.Params {
-								psub[pa.Name()] = sk(x.Call.Args[i])
+								psub[pa.Name()] = kf(x.Call.Args[i])
 							}
 							var next []ipath
-							ck := sk(x)
+							ck := kf(x)
 							for _, c0 := range cur {
 								if c0.Exit != "" {
 									next = append(next, c0) // already ended (a spliced helper panicked)
@@ -228,7 +234,7 @@ func (p *Prog) ipathsD(f *ssa.Function, depth int, stack map[*ssa.Function]bool)
 							continue
 						}
 					}
-					ev := mkEvent(&x.Call, x, in, f)
+					ev := mkEventK(&x.Call, x, in, f, kf)
 					for i := range cur {
 						if cur[i].Exit == "" {
 							cur[i].Events = append(cur[i].Events, ev)
@@ -255,7 +261,7 @@ func (p *Prog) ipathsD(f *ssa.Function, depth int, stack map[*ssa.Function]bool)
 							cur[i].Exit = "return"
 							cur[i].RetIn = x
 							for _, rv := range x.Results {
-								cur[i].Ret = append(cur[i].Ret, sk(resolveOnPathAt(cp, rv, len(cp.Blocks)-1, p.havoc)))
+								cur[i].Ret = append(cur[i].Ret, skOnPath(cp, resolveOnPathAt(cp, rv, len(cp.Blocks)-1, p.havoc), len(cp.Blocks)-1, p.havoc))
 							}
 						}
 					}
@@ -335,6 +341,11 @@ func (p *Prog) ipathsD(f *ssa.Function, depth int, stack map[*ssa.Function]bool)
 			if infeasible(c.Rels, amb) {
 				continue
 			}
+			// a counter that starts at a non-negative constant and is only ever incremented is never negative:
+			// "(phi:n + c) <= 0" cannot hold (overflow aside — the counters in question count packages)
+			if p.havoc && counterContradiction(f, c.Rels) {
+				continue
+			}
 			out = append(out, c)
 			if len(out) > ipathLimit {
 				return nil, false
@@ -354,6 +365,11 @@ func flatten(bs [][2]string) []string {
 }
 
 func mkEvent(cc *ssa.CallCommon, v ssa.Value, in ssa.Instruction, f *ssa.Function) ievent {
+	return mkEventK(cc, v, in, f, sk)
+}
+
+// mkEventK renders the keys with sk: on an enumerated path, the position-aware key function.
+func mkEventK(cc *ssa.CallCommon, v ssa.Value, in ssa.Instruction, f *ssa.Function, sk func(ssa.Value) string) ievent {
 	ev := ievent{In: in, Fn: f, Impure: curProg == nil || !curProg.pureCall(cc)}
 	if cal := cc.StaticCallee(); cal != nil {
 		ev.Callee = fullName(cal)
@@ -557,4 +573,145 @@ func sameVal(a, b ssa.Value) bool {
 	ca, ok1 := a.(*ssa.Const)
 	cb, ok2 := b.(*ssa.Const)
 	return ok1 && ok2 && constKey(ca) == constKey(cb)
+}
+
+// nonNegCounters: names of the loop-header phis of f that hold an integer starting at a constant >= 0 whose
+// every loop-carried value is the phi itself or the phi plus a positive constant.
+func nonNegCounters(f *ssa.Function) map[string]bool {
+	out := map[string]bool{}
+	for _, b := range f.Blocks {
+		if !isLoopHeader(b) {
+			continue
+		}
+		for _, in := range b.Instrs {
+			ph, ok := in.(*ssa.Phi)
+			if !ok {
+				break
+			}
+			bt, isB := ph.Type().Underlying().(*types.Basic)
+			if !isB || bt.Info()&types.IsInteger == 0 || ph.Comment == "rangeindex" {
+				continue
+			}
+			good := true
+			var chk func(v ssa.Value, depth int) bool
+			chk = func(v ssa.Value, depth int) bool {
+				if depth > 6 {
+					return false
+				}
+				if v == ssa.Value(ph) {
+					return true
+				}
+				switch x := v.(type) {
+				case *ssa.BinOp:
+					if x.Op == token.ADD {
+						if c, ok := constInt(x.Y); ok && c > 0 {
+							return chk(x.X, depth+1)
+						}
+						if c, ok := constInt(x.X); ok && c > 0 {
+							return chk(x.Y, depth+1)
+						}
+					}
+				case *ssa.Phi:
+					for _, e := range x.Edges {
+						if !chk(e, depth+1) {
+							return false
+						}
+					}
+					return true
+				}
+				return false
+			}
+			for i, e := range ph.Edges {
+				if !b.Dominates(b.Preds[i]) { // entry edge
+					if c, ok := constInt(e); !ok || c < 0 {
+						good = false
+					}
+					continue
+				}
+				if !chk(e, 0) {
+					good = false
+				}
+			}
+			if good && ph.Comment != "" {
+				out[ph.Comment] = true
+			}
+		}
+	}
+	return out
+}
+
+func counterContradiction(f *ssa.Function, rs relSet) bool {
+	cs := nonNegCounters(f)
+	if len(cs) == 0 {
+		return false
+	}
+	for k := range rs {
+		for n := range cs {
+			pre := "(phi:" + n + " + "
+			if strings.HasPrefix(k, pre) && (strings.HasSuffix(k, ") <= 0") || strings.HasSuffix(k, ") < 1") || strings.HasSuffix(k, ") == 0")) {
+				return true
+			}
+			if strings.HasPrefix(k, "0 == "+pre) {
+				return true
+			}
+			if k == "phi:"+n+" < 0" {
+				return true
+			}
+		}
+	}
+	return false
+}
+
+// skOnPath: the key of v with the phi nodes nested in it replaced by what they resolve to at position
+// `at` of the path (a loop-carried variable tested after the loop is its last value, not its first).
+func skOnPath(pt cfgPath, v ssa.Value, at int, havoc bool) string {
+	key := sk(v)
+	if !strings.Contains(key, "phi:") {
+		return key
+	}
+	seen := map[ssa.Value]bool{}
+	var phis []*ssa.Phi
+	var walk func(v ssa.Value, d int)
+	walk = func(v ssa.Value, d int) {
+		if v == nil || seen[v] || d > 8 {
+			return
+		}
+		seen[v] = true
+		if ph, ok := v.(*ssa.Phi); ok {
+			phis = append(phis, ph)
+			return
+		}
+		if _, isCall := v.(*ssa.Call); isCall && d > 0 {
+			// arguments are part of the key
+		}
+		if in, ok := v.(ssa.Instruction); ok {
+			var ops []*ssa.Value
+			for _, o := range in.Operands(ops) {
+				if o != nil {
+					walk(*o, d+1)
+				}
+			}
+		}
+	}
+	walk(v, 0)
+	// single pass with placeholders so that replacements are not re-replaced
+	type rep struct{ ph, tok, with string }
+	var reps []rep
+	for i, ph := range phis {
+		if ph.Comment == "" || ph.Comment == "rangeindex" {
+			continue
+		}
+		rv := resolveOnPathAt(pt, ph, at, havoc)
+		if rv == ssa.Value(ph) {
+			continue
+		}
+		reps = append(reps, rep{"phi:" + ph.Comment, "\x01" + itoa(i) + "\x01", sk(rv)})
+	}
+	for _, r := range reps {
+		key = replaceToken(key, r.ph, r.tok)
+	}
+	for _, r := range reps {
+		key = strings.ReplaceAll(key, r.tok, r.with)
+	}
+	return key
 }
